@@ -69,7 +69,7 @@ def demo_place(src_dir, wt):
         run = "^(" + "|".join(sorted(names)) + ")$"
         return f"go test -vet=off -count=1 -timeout 600s -run '{run}' .", cwd, placed
     if os.path.exists(os.path.join(src_dir, "demo.sh")):
-        return f"bash {os.path.join(src_dir, 'demo.sh')} {wt}", wt, []
+        return f"REPO={wt} WT={wt} sh {os.path.join(src_dir, 'demo.sh')} {wt}", wt, []
     return None, None, []
 
 
